@@ -157,3 +157,113 @@ pub mod generics {
         Response::ok()
     }
 }
+
+/// Singletons whose types only differ in a NESTED generic argument: `Arc<Mutex<Counter>>` and
+/// `Arc<Mutex<Cache>>`. Both become fields of the generated `ApplicationState` and need distinct,
+/// stable names.
+pub mod state_nested_generics {
+    use pavex::Response;
+    use std::sync::{Arc, Mutex};
+    pub struct Counter(pub u64);
+    pub struct Cache(pub u64);
+    #[pavex::singleton(id = "NG_COUNTER")]
+    pub fn counter() -> Arc<Mutex<Counter>> {
+        Arc::new(Mutex::new(Counter(0)))
+    }
+    #[pavex::singleton(id = "NG_CACHE")]
+    pub fn cache() -> Arc<Mutex<Cache>> {
+        Arc::new(Mutex::new(Cache(0)))
+    }
+    #[pavex::get(path = "/shapes/state/nested", id = "NG_HANDLER")]
+    pub fn handler(_a: &Arc<Mutex<Counter>>, _b: &Arc<Mutex<Cache>>) -> Response {
+        Response::ok()
+    }
+}
+
+/// Singletons `Pool<a::Marker>` and `Pool<b::Marker>`: same base type, generic arguments with the
+/// same last path segment.
+pub mod state_same_name_generics {
+    use pavex::Response;
+    pub struct Pool<T>(pub std::marker::PhantomData<T>);
+    pub mod a {
+        pub struct Marker;
+    }
+    pub mod b {
+        pub struct Marker;
+    }
+    #[pavex::singleton(id = "SN_A")]
+    pub fn pool_a() -> Pool<a::Marker> {
+        Pool(Default::default())
+    }
+    #[pavex::singleton(id = "SN_B")]
+    pub fn pool_b() -> Pool<b::Marker> {
+        Pool(Default::default())
+    }
+    #[pavex::get(path = "/shapes/state/samename", id = "SN_HANDLER")]
+    pub fn handler(_a: &Pool<a::Marker>, _b: &Pool<b::Marker>) -> Response {
+        Response::ok()
+    }
+}
+
+/// Array-typed singletons that differ in their length only, next to a scalar of the element type.
+pub mod state_arrays {
+    use pavex::Response;
+    #[pavex::singleton(id = "ARR_4")]
+    pub fn four() -> [u8; 4] {
+        [0; 4]
+    }
+    #[pavex::singleton(id = "ARR_8")]
+    pub fn eight() -> [u8; 8] {
+        [0; 8]
+    }
+    #[pavex::singleton(id = "ARR_SCALAR")]
+    pub fn scalar() -> u8 {
+        0
+    }
+    #[pavex::get(path = "/shapes/state/arrays", id = "ARR_HANDLER")]
+    pub fn handler(_a: &[u8; 4], _b: &[u8; 8], _c: &u8) -> Response {
+        Response::ok()
+    }
+}
+
+/// `union` types as components: a singleton (thread-safety checks) and a `clone_if_necessary`
+/// request-scoped value taken by value twice (the `Clone` check).
+pub mod unions {
+    use pavex::Response;
+    #[derive(Clone, Copy)]
+    pub union Bits {
+        pub a: u32,
+        pub b: f32,
+    }
+    #[pavex::singleton(id = "UN_BITS")]
+    pub fn bits() -> Bits {
+        Bits { a: 0 }
+    }
+    #[pavex::get(path = "/shapes/union", id = "UN_HANDLER")]
+    pub fn handler(_a: &Bits) -> Response {
+        Response::ok()
+    }
+    #[derive(Clone, Copy)]
+    pub union Word {
+        pub a: u16,
+        pub b: i16,
+    }
+    pub struct Left;
+    pub struct Right;
+    #[pavex::request_scoped(id = "UN_WORD", clone_if_necessary)]
+    pub fn word() -> Word {
+        Word { a: 0 }
+    }
+    #[pavex::request_scoped(id = "UN_LEFT")]
+    pub fn left(_w: Word) -> Left {
+        Left
+    }
+    #[pavex::request_scoped(id = "UN_RIGHT")]
+    pub fn right(_w: Word) -> Right {
+        Right
+    }
+    #[pavex::get(path = "/shapes/union/word", id = "UN_WORD_HANDLER")]
+    pub fn word_handler(_l: Left, _r: Right) -> Response {
+        Response::ok()
+    }
+}
